@@ -50,10 +50,42 @@ func c13Configs() []c13Config {
 		{"A+bounds", a, c13UserA + "\nfunc (p *parser) _onBounds(r any, b, e Token) {}\n"},
 		// A with the two token declarations exchanged: same names, same file sizes, other numbers
 		{"A-swapped", strings.Replace(a, "X = 'x'\nY = 'y'\n", "Y = 'y'\nX = 'x'\n", 1), c13UserA},
+		// A split over two files, token rules in both ("\x00" separates the files a.lox and b.lox)
+		{"A-two-files", "@lexer\nX = 'x'\n@parser\n@start s = X Y\n\x00@lexer\nY = 'y'\n@frag [ \\n]+ @discard\n", c13UserA},
 	}
 }
 
 var c13Gen = []string{"base.gen.go", "lexer.gen.go", "parser.gen.go"}
+
+// c13OrderKey is a pseudo file of a directory state: "rev" means the files of
+// the directory were created in reverse name order (what a directory listing
+// returns may depend on that; what lox generates must not).
+const c13OrderKey = "\x00creation-order"
+
+// c13Sources returns the source files of configuration i.
+func c13Sources(i int) dirState {
+	cf := c13Configs()[i]
+	d := dirState{"user.go": cf.user}
+	if parts := strings.Split(cf.lox, "\x00"); len(parts) == 2 {
+		d["a.lox"], d["b.lox"] = parts[0], parts[1]
+	} else {
+		d["g.lox"] = cf.lox
+	}
+	return d
+}
+
+// c13SetSources replaces the source files of d (everything that is not a
+// generated file) by those of configuration i.
+func c13SetSources(d dirState, i int) {
+	for n := range d {
+		if !strings.HasSuffix(n, ".gen.go") && n != c13OrderKey {
+			delete(d, n)
+		}
+	}
+	for k, v := range c13Sources(i) {
+		d[k] = v
+	}
+}
 
 type dirState map[string]string // file name -> content
 
@@ -91,6 +123,8 @@ func (e c13Event) String() string {
 		return fmt.Sprintf("run(%s, %s)", c13Configs()[e.Cfg].name, e.Mode)
 	case "delete":
 		return "delete(" + e.File + ")"
+	case "reorder":
+		return "recreate-files-in-opposite-order"
 	}
 	return fmt.Sprintf("swap(%s <- %s)", e.File, c13Configs()[e.Cfg].name)
 }
@@ -115,8 +149,21 @@ func (r *c13Runner) runLox(d dirState, mode string, report bool) (dirState, stri
 	os.MkdirAll(dir, 0o777)
 	defer os.RemoveAll(base)
 	os.WriteFile(filepath.Join(base, "go.mod"), []byte("module example.com/m\n\ngo 1.23\n"), 0o666)
-	for n, t := range d {
-		os.WriteFile(filepath.Join(dir, n), []byte(t), 0o666)
+	// files are created in name order, or in reverse name order when the state says so
+	var names []string
+	for n := range d {
+		if n != c13OrderKey {
+			names = append(names, n)
+		}
+	}
+	sort.Strings(names)
+	if d[c13OrderKey] == "rev" {
+		for i, j := 0, len(names)-1; i < j; i, j = i+1, j-1 {
+			names[i], names[j] = names[j], names[i]
+		}
+	}
+	for _, n := range names {
+		os.WriteFile(filepath.Join(dir, n), []byte(d[n]), 0o666)
 	}
 	var args []string
 	if report {
@@ -151,6 +198,9 @@ func (r *c13Runner) runLox(d dirState, mode string, report bool) (dirState, stri
 		b, _ := os.ReadFile(filepath.Join(dir, e.Name()))
 		out[e.Name()] = string(b)
 	}
+	if o, ok := d[c13OrderKey]; ok {
+		out[c13OrderKey] = o
+	}
 	return out, so.String(), se.String(), exit
 }
 
@@ -167,7 +217,7 @@ func c13DirWorker(c *mc.Ctx, depth int) {
 		return
 	}
 	cfgs := c13Configs()
-	src := func(i int) dirState { return dirState{"g.lox": cfgs[i].lox, "user.go": cfgs[i].user} }
+	src := c13Sources
 	// fresh outputs (and repeated runs in separate processes must agree)
 	for i := range cfgs {
 		var first dirState
@@ -217,6 +267,7 @@ func c13DirWorker(c *mc.Ctx, depth int) {
 			for i := range cfgs {
 				events = append(events, c13Event{Kind: "run", Cfg: i, Mode: modes[(lvl+i+len(nd.path))%3]})
 			}
+			events = append(events, c13Event{Kind: "reorder"})
 			for _, f := range c13Gen {
 				if _, ok := nd.d[f]; ok {
 					events = append(events, c13Event{Kind: "delete", File: f})
@@ -237,14 +288,18 @@ func c13DirWorker(c *mc.Ctx, depth int) {
 					d2 := nd.d.clone()
 					path := append(append([]c13Event{}, nd.path...), ev)
 					switch ev.Kind {
+					case "reorder":
+						if d2[c13OrderKey] == "rev" {
+							delete(d2, c13OrderKey)
+						} else {
+							d2[c13OrderKey] = "rev"
+						}
 					case "delete":
 						delete(d2, ev.File)
 					case "swap":
 						d2[ev.File] = r.fresh[ev.Cfg][ev.File]
 					case "run":
-						for k, v := range src(ev.Cfg) {
-							d2[k] = v
-						}
+						c13SetSources(d2, ev.Cfg)
 						out, _, se, exit := r.runLox(d2, ev.Mode, false)
 						mu.Lock()
 						c.Stats.Evaluations++
@@ -315,14 +370,18 @@ func c13InProcess(c *mc.Ctx) {
 	defer os.RemoveAll(tmpRoot)
 	cfgs := c13Configs()
 	// package names differ between configurations
-	pkgName := []string{"p", "q", "p", "q"}
+	pkgName := []string{"p", "q", "p", "q", "p"}
 	mk := func(i int, tag string) string {
 		base := filepath.Join(tmpRoot, tag)
 		dir := filepath.Join(base, "pkg")
 		os.MkdirAll(dir, 0o777)
 		os.WriteFile(filepath.Join(base, "go.mod"), []byte("module example.com/m\n\ngo 1.23\n"), 0o666)
-		os.WriteFile(filepath.Join(dir, "g.lox"), []byte(cfgs[i].lox), 0o666)
-		os.WriteFile(filepath.Join(dir, "user.go"), []byte(strings.Replace(cfgs[i].user, "package p\n", "package "+pkgName[i]+"\n", 1)), 0o666)
+		for n, t := range c13Sources(i) {
+			if n == "user.go" {
+				t = strings.Replace(t, "package p\n", "package "+pkgName[i]+"\n", 1)
+			}
+			os.WriteFile(filepath.Join(dir, n), []byte(t), 0o666)
+		}
 		return dir
 	}
 	read := func(dir string) dirState {
@@ -491,7 +550,7 @@ func c13ReplayHistory(history []c13Event) *mc.Violation {
 		return &mc.Violation{Property: "C13", Kind: "bad-replay", Detail: fmt.Sprint(err, out)}
 	}
 	cfgs := c13Configs()
-	src := func(i int) dirState { return dirState{"g.lox": cfgs[i].lox, "user.go": cfgs[i].user} }
+	src := c13Sources
 	for i := range cfgs {
 		out, _, se, exit := r.runLox(src(i), ".", false)
 		if exit != 0 {
@@ -507,14 +566,18 @@ func c13ReplayHistory(history []c13Event) *mc.Violation {
 		}
 		ps = append(ps, ev.String())
 		switch ev.Kind {
+		case "reorder":
+			if d[c13OrderKey] == "rev" {
+				delete(d, c13OrderKey)
+			} else {
+				d[c13OrderKey] = "rev"
+			}
 		case "delete":
 			delete(d, ev.File)
 		case "swap":
 			d[ev.File] = r.fresh[ev.Cfg][ev.File]
 		case "run":
-			for k, v := range src(ev.Cfg) {
-				d[k] = v
-			}
+			c13SetSources(d, ev.Cfg)
 			out, _, se, exit := r.runLox(d, ev.Mode, false)
 			bad := ""
 			if exit != 0 {
@@ -600,7 +663,7 @@ func init() {
 		ID:    "C13",
 		Level: "model_checking",
 		Rule: "(a) map iteration order: every `range` over a built-in map in lox's non-test sources is rewritten at check time into a loop over keys the explorer orders (canonical order = default choice); for each specification the whole pipeline is executed under every schedule with one deviating dynamic occurrence (every non-identity permutation for maps of <= 3 keys, else reverse / rotate / swap-first / swap-last), under every site-uniform policy (reverse, rotate) of one site (thorough: two sites) and of all sites; generated files, --report text and diagnostics must hash to one value; states = dynamic map iterations, transitions = executions. " +
-			"(b) earlier runs: breadth-first search over directory states (the files of the package directory), events = run the REAL binary for grammar A / grammar B / A with _onBounds (invoked as '.', by relative path and by absolute path from another directory), delete each *.gen.go, replace each *.gen.go by another configuration's; every run must exit 0 and leave exactly the bytes a fresh directory gets; non-trivial = one real run over a non-fresh directory",
+			"(b) earlier runs: breadth-first search over directory states (the files of the package directory), events = run the REAL binary for grammar A / grammar B / A with _onBounds / A with two declarations exchanged / A split over two files (invoked as '.', by relative path and by absolute path from another directory; a run replaces the directory's source files and keeps its generated files), delete each *.gen.go, replace each *.gen.go by another configuration's, re-create the directory's files in the opposite order; every run must exit 0 and leave exactly the bytes a fresh directory gets; non-trivial = one real run over a non-fresh directory",
 		Assume: []string{"libraries outside the repository (jet, go/types, gofmt, packages.Load) are exercised by the separate processes of (b), not explored", "a map whose keys have no canonical order would be reported as a cap (none today)"},
 		Worker: c13Worker,
 		Replay: c13Replay,
